@@ -1,0 +1,36 @@
+//go:build verif
+
+package stakepool
+
+// Machine-checked contracts for /verif/govc (contract-based deductive verification).
+// This file contains comments only; it is compiled only with -tags verif and adds no code.
+
+//@ spec poolsOK(pools []*DelegatePool) bool = (forall i in 0..len(pools) :: pools[i] != nil && pools[i].Reward <= MAXSUPPLY) && (forall i in 0..len(pools) :: forall j in i+1..len(pools) :: pools[i] != pools[j])
+
+// ---------------------------------------------------------------- reward distribution (C10)
+
+// The remainder of a reward is handed out exactly: with n pools every pool gets coins/n and the
+// first coins%n pools (in the given order) one coin more. Summed over the pools this is coins.
+//@ func equallyDistributeRewards
+//@   prop C10
+//@   requires len(pools) > 0 && poolsOK(pools) && coins <= MAXSUPPLY && spUpdate != nil && spUpdate.DelegateRewards != nil
+//@   ensures[exact-per-pool] result == nil ==> forall i in 0..len(pools) :: pools[i].Reward == old(pools[i].Reward) + coins / len(pools) + (i < coins % len(pools) ? 1 : 0)
+//@   ensures forall i in 0..len(pools) :: pools[i].Balance == old(pools[i].Balance) && pools[i].DelegateID == old(pools[i].DelegateID)
+//@   modifies any(DelegatePool).Reward, maps
+//@   loop 1 header "for i := int64(0); i < c; i++"
+//@   loop 1 invariant 0 <= i && i <= c && c == coins && c < len(pools) && share == 0
+//@   loop 1 invariant forall k in 0..i :: pools[k].Reward == old(pools[k].Reward) + 1
+//@   loop 1 invariant forall k in i..len(pools) :: pools[k].Reward == old(pools[k].Reward)
+//@   loop 1 invariant forall k in 0..len(pools) :: pools[k] == old(pools[k])
+//@   loop 1 decreases c - i
+//@   loop 2 header "for i := range pools"
+//@   loop 2 invariant share == coins / len(pools) && r == coins % len(pools) && share > 0
+//@   loop 2 invariant forall k in 0..$idx+1 :: pools[k].Reward == old(pools[k].Reward) + share
+//@   loop 2 invariant forall k in $idx+1..len(pools) :: pools[k].Reward == old(pools[k].Reward)
+//@   loop 2 invariant forall k in 0..len(pools) :: pools[k] == old(pools[k])
+//@   loop 3 header "for i := 0; i < int(r); i++"
+//@   loop 3 invariant 0 <= i && i <= r && share == coins / len(pools) && r == coins % len(pools)
+//@   loop 3 invariant forall k in 0..i :: pools[k].Reward == old(pools[k].Reward) + share + 1
+//@   loop 3 invariant forall k in i..len(pools) :: pools[k].Reward == old(pools[k].Reward) + share
+//@   loop 3 invariant forall k in 0..len(pools) :: pools[k] == old(pools[k])
+//@   loop 3 decreases r - i
